@@ -407,6 +407,17 @@ def reduction_call(e):
     return f, ast.unparse(args[0]), axis, sorted(other)
 
 
+LEAN_KEYWORDS = set("""have show from fun let in at do then else if match with end def theorem lemma example structure class instance where
+open namespace section variable universe import export axiom inductive deriving mutual private protected partial unsafe noncomputable abbrev
+by calc suffices obtain using local attribute macro syntax notation infix infixl infixr prefix postfix set_option return for unless try catch
+finally break continue mut Type Prop Sort""".split())
+
+
+def lid(name):
+    """a Python identifier as a Lean binder name (quoted when it is a Lean keyword)"""
+    return f'«{name}»' if name in LEAN_KEYWORDS else name
+
+
 def lean_opt_int(k):
     return 'none' if k is None else f'(some ({k}))'
 
@@ -519,9 +530,9 @@ class TrZ:
         """translate `body` with the single lambda / comprehension variable bound to an element of type `elty`"""
         if len(args) != 1:
             raise Untranslatable('lambda with several arguments')
-        sub = self.child(**{args[0]: (args[0], elty)})
+        sub = self.child(**{args[0]: (lid(args[0]), elty)})
         t, ty = sub.tr(body)
-        return f'(fun {args[0]} => {t})', ty
+        return f'(fun {lid(args[0])} => {t})', ty
 
     def mapped(self, e):
         """`map(lambda v: body, xs)`, `[body for v in xs]`, `(body for v in xs)` -> (lean list term, element type)"""
@@ -537,9 +548,9 @@ class TrZ:
                 return f'({xs}.map {f})', ty
             # [elt for a in A for b in B …] = A.flatMap (fun a => [elt for b in B …])
             inner = type(e)(elt=e.elt, generators=e.generators[1:])
-            sub = self.child(**{g.target.id: (g.target.id, elty)})
+            sub = self.child(**{g.target.id: (lid(g.target.id), elty)})
             t, ty = sub.mapped(inner)
-            return f'({xs}.flatMap (fun {g.target.id} => {t}))', ty
+            return f'({xs}.flatMap (fun {lid(g.target.id)} => {t}))', ty
         return None
 
     # -- expressions
@@ -722,8 +733,8 @@ class TrZ:
         if isinstance(s, ast.Assign) and len(s.targets) == 1 and isinstance(s.targets[0], ast.Name):
             t, ty = self.tr(s.value)
             nm = s.targets[0].id
-            sub = self.child(**{nm: (nm, ty)})
-            return f'let {nm} := {t};\n  {sub.chain(rest, counter)}'
+            sub = self.child(**{nm: (lid(nm), ty)})
+            return f'let {lid(nm)} := {t};\n  {sub.chain(rest, counter)}'
         if isinstance(s, ast.If) and not s.orelse and len(s.body) == 1 and isinstance(s.body[0], (ast.Return, ast.Raise)):
             r = s.body[0]
             if isinstance(r, ast.Return) and (r.value is None or (isinstance(r.value, ast.Constant) and r.value.value is None)):
@@ -779,8 +790,8 @@ def let_block(tr, stmts, result):
     if isinstance(s, ast.Assign) and len(s.targets) == 1 and isinstance(s.targets[0], ast.Name):
         t, ty = tr.tr(s.value)
         nm = s.targets[0].id
-        body, bty = let_block(tr.child(**{nm: (nm, ty)}), rest, result)
-        return f'let {nm} := {t};\n  {body}', bty
+        body, bty = let_block(tr.child(**{nm: (lid(nm), ty)}), rest, result)
+        return f'let {lid(nm)} := {t};\n  {body}', bty
     raise Untranslatable('statement ' + ast.unparse(s).splitlines()[0])
 
 
@@ -789,6 +800,449 @@ def loop_over(fn, var, iter_text=None):
     fs = [s for s in walk_stmts(fn) if isinstance(s, ast.For) and isinstance(s.target, ast.Name) and s.target.id == var
           and (iter_text is None or ast.unparse(s.iter).replace(' ', '') == iter_text.replace(' ', ''))]
     return the(fs, f'for {var} in … loop')
+
+
+# ----------------------------------------------------------------------------- third wave: row-wise reading of array code
+PY3_PRELUDE = (
+    '/-! Row-wise readings of the NumPy / SciPy primitives met by the third wave of fragments (`S3…` definitions):\n'
+    '    a 2-D array with one row per sample is read one row at a time (`axis=1` reductions act inside the row); a data\n'
+    '    entry is `Option Nat` (`none` = NaN). Core Lean only, any carrier. -/\n'
+    'namespace Py3\n'
+    'variable {α : Type}\n'
+    '/-- `np.dot(x, w)` for one row `x` (length of the shorter operand; NumPy raises on a mismatch) -/\n'
+    'def dot [Zero α] [Add α] [Mul α] : List α → List α → α\n  | x :: xs, w :: ws => x * w + dot xs ws\n  | _, _ => 0\n'
+    '/-- `np.sum(x, axis=1)` / `np.prod(x, axis=1)` for one row -/\n'
+    'def sum [Zero α] [Add α] : List α → α\n  | [] => 0\n  | x :: xs => x + sum xs\n'
+    'def prod [One α] [Mul α] : List α → α\n  | [] => 1\n  | x :: xs => x * prod xs\n'
+    '/-- `np.isnan` of a data entry, and the observed value read under the mask `~np.isnan(x)` -/\n'
+    'def isnan (x : Option Nat) : Bool := x.isNone\n'
+    'def val (x : Option Nat) : Nat := x.getD 0\n'
+    '/-- `scipy.stats.bernoulli.pmf(k, p)` (SciPy semantics, trusted) -/\n'
+    'def bernoulliPmf [Zero α] [One α] [Sub α] (k : Nat) (p : α) : α := if k = 0 then 1 - p else if k = 1 then p else 0\n'
+    '/-- `scipy.stats.rv_discrete(values=(xk, pk)).pmf(k)` (SciPy semantics, trusted): the mass listed for `k` -/\n'
+    'def rvDiscretePmf [Zero α] [Add α] (xk : List Nat) (pk : List α) (k : Nat) : α :=\n'
+    '  sum (((xk.zip pk).filter (fun c => c.1 == k)).map (fun c => c.2))\n'
+    '/-- `np.unique(l)`: the distinct labels in increasing order (NumPy semantics, trusted) -/\n'
+    'def uinsert (x : Int) : List Int → List Int\n  | [] => [x]\n'
+    '  | y :: ys => if x < y then x :: y :: ys else if x = y then y :: ys else y :: uinsert x ys\n'
+    'def unique (l : List Int) : List Int := l.foldr uinsert []\n'
+    '/-- `a[mask]` / `a[mask, :]`: the rows of `a` whose mask entry is true, in order -/\n'
+    'def rowsWhere {β : Type} (a : List β) (m : List Bool) : List β := ((a.zip m).filter (fun p => p.2)).map (fun p => p.1)\n'
+    '/-- `np.delete(a, obj=k)` -/\n'
+    'def delete {β : Type} (a : List β) (k : Nat) : List β := a.eraseIdx k\n'
+    'end Py3')
+
+
+class TrA:
+    """row-wise reader of NumPy code: translates expressions over arrays whose axis 0 ranges over the samples into the
+    Lean term of ONE row.  A value is (term, elem, shape): elem in {'num', 'bool', 'opt' (data entry, none = NaN), 'nat'
+    (observed data value)}; shape in {'P0' scalar parameter, 'P1' 1-D parameter array, 'R' 1-D array over the samples,
+    'RC' (n, 1) array, 'RV' (n, k) array}.  P0 / R / RC values are scalar Lean terms, P1 / RV values are lists.
+    Anything that is not understood raises Untranslatable (no default reading)."""
+
+    SCALAR = ('P0', 'R', 'RC')
+
+    def __init__(self, env=None, syms=None, carrier='F', funcs=None):
+        self.env = dict(env or {})
+        self.syms = {k.replace(' ', ''): v for k, v in (syms or {}).items()}
+        self.carrier = carrier
+        self.funcs = dict(funcs or {})     # dotted name -> handler(self, call) -> value
+        self.guards = []                   # Lean texts of the masks under which entries were read in the current expression
+        self.rowvar = None                 # Lean name of the entry index when a 1-D array is read entry by entry
+
+    def child(self, **bind):
+        t = TrA(self.env, None, self.carrier, self.funcs)
+        t.syms = self.syms
+        t.rowvar = self.rowvar
+        t.env.update(bind)
+        return t
+
+    # -- helpers
+    def lit(self, q):
+        return q_lean(q, self.carrier)
+
+    def join(self, sa, sb, what):
+        """shape of an element-wise operation (NumPy broadcasting restricted to the combinations that keep the row reading)"""
+        if sa == sb:
+            return sa
+        if sa == 'P0':
+            return sb
+        if sb == 'P0':
+            return sa
+        if {sa, sb} == {'RV', 'P1'} or {sa, sb} == {'RV', 'RC'}:
+            return 'RV'
+        raise Untranslatable(f'broadcast of shapes {sa} and {sb} in {what}')
+
+    def ew2(self, f, a, b, what, elem='num'):
+        """element-wise binary operation; `f(x, y)` renders the scalar operation"""
+        (ta, ea, sa), (tb, eb, sb) = a, b
+        s = self.join(sa, sb, what)
+        la, lb = sa in ('P1', 'RV'), sb in ('P1', 'RV')
+        if not la and not lb:
+            return f(ta, tb), elem, s
+        if la and lb:
+            return f'(List.zipWith (fun a b => {f("a", "b")}) {ta} {tb})', elem, s
+        if la:
+            return f'({ta}.map (fun a => {f("a", tb)}))', elem, s
+        return f'({tb}.map (fun b => {f(ta, "b")}))', elem, s
+
+    def ew1(self, f, a, elem=None):
+        t, e, s = a
+        if s in ('P1', 'RV'):
+            return f'({t}.map (fun a => {f("a")}))', elem or e, s
+        return f(t), elem or e, s
+
+    def num(self, v, what):
+        if v[1] != 'num':
+            raise Untranslatable(f'number expected in {what}, got {v[1]}')
+        return v
+
+    def kw(self, call, allowed):
+        ks = {k.arg: k.value for k in call.keywords}
+        if set(ks) - set(allowed):
+            raise Untranslatable('unexpected keywords in ' + ast.unparse(call))
+        return ks
+
+    def axis_of(self, call, ks, pos=1):
+        a = ks.get('axis', ks.get('dim'))
+        if a is None and len(call.args) > pos:
+            a = call.args[pos]
+        return None if a is None else int(const_value(a))
+
+    def truth(self, e, default=False):
+        if e is None:
+            return default
+        if isinstance(e, ast.Constant) and isinstance(e.value, bool):
+            return e.value
+        raise Untranslatable('flag is not a literal: ' + ast.unparse(e))
+
+    def shape_arg(self, e):
+        """`np.ones(shape)`-style argument -> 'R' for `len(x)` / `[len(x)]` / `n_samples`, 'RC' for `[len(x), 1]`"""
+        def is_n(d):
+            v = self.tr(d) if not (isinstance(d, ast.Call) and dotted_name(d.func) == 'len') else None
+            if v is not None:
+                return v[1] == 'nrows'
+            a = self.tr(d.args[0])
+            return a[2] in ('R', 'RC', 'RV')
+        dims = list(e.elts) if isinstance(e, (ast.List, ast.Tuple)) else [e]
+        if len(dims) == 1 and is_n(dims[0]):
+            return 'R'
+        if len(dims) == 2 and is_n(dims[0]) and const_value(dims[1]) == 1:
+            return 'RC'
+        raise Untranslatable('shape ' + ast.unparse(e))
+
+    # -- expressions
+    def tr(self, e):
+        key = ast.unparse(e).replace(' ', '')
+        if key in self.syms:
+            return self.syms[key]
+        try:
+            return self.lit(const_value(e)), 'num', 'P0'
+        except Untranslatable:
+            pass
+        if isinstance(e, ast.Name):
+            if e.id in self.env:
+                return self.env[e.id]
+            raise Untranslatable(f'free name {e.id}')
+        if isinstance(e, ast.Attribute):
+            if key in self.env:
+                return self.env[key]
+            if e.attr == 'T':
+                v = self.tr(e.value)
+                if v[2] == 'CV':        # (k, samples) array: its transpose has one row per sample
+                    return v[0], v[1], 'RV'
+                raise Untranslatable('transpose of a value that is not a (k × samples) array: ' + ast.unparse(e))
+            raise Untranslatable('attribute ' + ast.unparse(e))
+        if isinstance(e, ast.UnaryOp):
+            a = self.tr(e.operand)
+            if isinstance(e.op, ast.USub):
+                return self.ew1(lambda x: f'(-{x})', self.num(a, 'negation'))
+            if isinstance(e.op, (ast.Invert, ast.Not)) and a[1] == 'bool':
+                return self.ew1(lambda x: f'(!{x})', a)
+            raise Untranslatable('unary ' + ast.unparse(e))
+        if isinstance(e, ast.BinOp):
+            a, b = self.tr(e.left), self.tr(e.right)
+            if isinstance(e.op, ast.Pow):
+                p = const_value(e.right)
+                if p.denominator == 1 and p >= 0:
+                    return self.ew1(lambda x: f'({x} ^ {p.numerator})', self.num(a, 'power'))
+                raise Untranslatable('power ' + ast.unparse(e))
+            if a[1] == 'bool' and b[1] == 'bool' and isinstance(e.op, (ast.BitAnd, ast.BitOr)):
+                o = '&&' if isinstance(e.op, ast.BitAnd) else '||'
+                return self.ew2(lambda x, y: f'({x} {o} {y})', a, b, ast.unparse(e), 'bool')
+            op = {ast.Add: '+', ast.Sub: '-', ast.Mult: '*', ast.Div: '/'}.get(type(e.op))
+            if op is None:
+                raise Untranslatable('operator ' + type(e.op).__name__)
+            return self.ew2(lambda x, y: f'({x} {op} {y})', self.num(a, ast.unparse(e)), self.num(b, ast.unparse(e)), ast.unparse(e))
+        if isinstance(e, ast.Compare) and len(e.ops) == 1:
+            a, b = self.tr(e.left), self.tr(e.comparators[0])
+            op = {ast.Lt: '<', ast.LtE: '≤', ast.Gt: '>', ast.GtE: '≥', ast.Eq: '=', ast.NotEq: '≠'}.get(type(e.ops[0]))
+            if op is None or a[1] != b[1] or a[1] not in ('num', 'nat'):
+                raise Untranslatable('comparison ' + ast.unparse(e))
+            return self.ew2(lambda x, y: f'(decide ({x} {op} {y}))', a, b, ast.unparse(e), 'bool')
+        if isinstance(e, ast.Subscript):
+            base = self.tr(e.value)
+            ix = self.tr(e.slice)
+            if ix[1] == 'bool' and ix[2] == base[2] and base[2] in ('R', 'RC'):
+                # masked read `a[mask]`: on one row it is the entry itself, valid where the mask holds
+                self.guards.append(ix[0])
+                if base[1] == 'opt':
+                    return f'(Gen.Py3.val {base[0]})', 'nat', base[2]
+                return base
+            raise Untranslatable('subscript ' + ast.unparse(e))
+        if isinstance(e, ast.Call):
+            return self.call(e)
+        raise Untranslatable('expression ' + ast.unparse(e))
+
+    def call(self, e):
+        nm = dotted_name(e.func) or ''
+        base = nm.split('.')[-1]
+        if nm in self.funcs:
+            return self.funcs[nm](self, e)
+        if isinstance(e.func, ast.Attribute) and ast.unparse(e.func).replace(' ', '') in self.funcs:
+            return self.funcs[ast.unparse(e.func).replace(' ', '')](self, e)
+        lib = nm.split('.')[0] in ('np', 'numpy', 'torch')
+        if isinstance(e.func, ast.Attribute) and e.func.attr == 'astype' and not lib:
+            v = self.tr(e.func.value)
+            ks = self.kw(e, ('copy', 'dtype'))
+            ty = (dotted_name(e.args[0]) if e.args else dotted_name(ks.get('dtype'))) or ''
+            if v[1] == 'nat' and ty.split('.')[-1] in ('int64', 'int32', 'int'):
+                return v
+            if v[1] == 'num' and ty.split('.')[-1] in ('float32', 'float64', 'float'):
+                return v
+            raise Untranslatable('astype ' + ast.unparse(e))
+        if isinstance(e.func, ast.Attribute) and e.func.attr == 'squeeze' and not lib:
+            args = [e.func.value] + list(e.args)
+            return self.squeeze(e, args, self.kw(e, ('axis',)))
+        if lib and base == 'squeeze':
+            return self.squeeze(e, list(e.args), self.kw(e, ('axis',)))
+        if lib and base == 'expand_dims':
+            ks = self.kw(e, ('axis',))
+            v = self.tr(e.args[0])
+            if self.axis_of(e, ks) == 1 and v[2] == 'R':
+                return v[0], v[1], 'RC'
+            raise Untranslatable('expand_dims ' + ast.unparse(e))
+        if lib and base in ('sum', 'prod'):
+            ks = self.kw(e, ('axis', 'keepdims'))
+            v = self.num(self.tr(e.args[0]), base)
+            if self.axis_of(e, ks) != 1 or v[2] != 'RV':
+                raise Untranslatable(f'{base}: not a reduction of a (samples × k) array along axis 1: ' + ast.unparse(e))
+            return f'(Gen.Py3.{base} {v[0]})', 'num', ('RC' if self.truth(ks.get('keepdims')) else 'R')
+        if lib and base == 'dot' and len(e.args) == 2 and not e.keywords:
+            a, b = self.num(self.tr(e.args[0]), 'dot'), self.num(self.tr(e.args[1]), 'dot')
+            if (a[2], b[2]) != ('RV', 'P1'):
+                raise Untranslatable('dot: operands are not (samples × k array, length-k parameter): ' + ast.unparse(e))
+            return f'(Gen.Py3.dot {a[0]} {b[0]})', 'num', 'R'
+        if base == 'logsumexp':
+            ks = self.kw(e, ('axis', 'keepdims', 'b'))
+            v = self.num(self.tr(e.args[0]), base)
+            if self.axis_of(e, ks) != 1 or v[2] != 'RV':
+                raise Untranslatable('logsumexp: not along axis 1 of a (samples × k) array: ' + ast.unparse(e))
+            ex = f'({v[0]}.map (fun a => E.exp a))'
+            if 'b' in ks:
+                b = self.num(self.tr(ks['b']), 'logsumexp b')
+                if b[2] != 'P1':
+                    raise Untranslatable('logsumexp: b is not a length-k parameter')
+                body = f'(E.log (Gen.Py3.dot {ex} {b[0]}))'
+            else:
+                body = f'(E.log (Gen.Py3.sum {ex}))'
+            return body, 'num', ('RC' if self.truth(ks.get('keepdims')) else 'R')
+        if base in ('log_softmax', 'softmax'):
+            ks = self.kw(e, ('axis',))
+            v = self.num(self.tr(e.args[0]), base)
+            if self.axis_of(e, ks) != 1 or v[2] != 'RV':
+                raise Untranslatable(f'{base}: not along axis 1 of a (samples × k) array: ' + ast.unparse(e))
+            z = f'(Gen.Py3.sum ({v[0]}.map (fun b => E.exp b)))'
+            if base == 'log_softmax':
+                return f'({v[0]}.map (fun a => a - E.log {z}))', 'num', 'RV'
+            return f'({v[0]}.map (fun a => E.exp a / {z}))', 'num', 'RV'
+        if lib and base in ('maximum', 'minimum') and len(e.args) == 2 and not e.keywords:
+            f = 'max' if base == 'maximum' else 'min'
+            return self.ew2(lambda x, y: f'({f} {x} {y})', self.num(self.tr(e.args[0]), base), self.num(self.tr(e.args[1]), base), ast.unparse(e))
+        if lib and base in ('exp', 'log') and len(e.args) == 1 and not e.keywords:
+            return self.ew1(lambda x: f'(E.{base} {x})', self.num(self.tr(e.args[0]), base))
+        if lib and base in ('ones', 'zeros'):
+            self.kw(e, ('dtype', 'shape'))
+            sh = e.args[0] if e.args else {k.arg: k.value for k in e.keywords}.get('shape')
+            if sh is None:
+                raise Untranslatable(base + ' without a shape')
+            return f'({1 if base == "ones" else 0} : {self.carrier})', 'num', self.shape_arg(sh)
+        if lib and base == 'isnan' and len(e.args) == 1 and not e.keywords:
+            v = self.tr(e.args[0])
+            if v[1] != 'opt':
+                raise Untranslatable('isnan of a non-data value')
+            return self.ew1(lambda x: f'(Gen.Py3.isnan {x})', v, 'bool')
+        raise Untranslatable('call ' + ast.unparse(e))
+
+    def squeeze(self, e, args, ks):
+        v = self.tr(args[0])
+        ax = None
+        if 'axis' in ks:
+            ax = int(const_value(ks['axis']))
+        elif len(args) > 1:
+            ax = int(const_value(args[1]))
+        if v[2] == 'RC' and ax in (1, -1):
+            return v[0], v[1], 'R'
+        if v[2] == 'RC' and ax is None:      # squeeze() of an (n, 1) array (n > 1) — what the code relies on
+            return v[0], v[1], 'R'
+        raise Untranslatable('squeeze ' + ast.unparse(e))
+
+    # -- statements
+    def block(self, stmts, tail):
+        """straight-line statements (assignments to names, masked stores `a[mask] = e`) as nested `let`s around
+        `tail(self_at_the_end)`; every other statement is refused"""
+        if not stmts:
+            return tail(self)
+        s, rest = stmts[0], stmts[1:]
+        if isinstance(s, ast.Expr) and isinstance(s.value, ast.Constant):
+            return self.block(rest, tail)
+        if isinstance(s, (ast.Assign, ast.AugAssign)) and (isinstance(s, ast.AugAssign) or len(s.targets) == 1):
+            tgt = s.target if isinstance(s, ast.AugAssign) else s.targets[0]
+            val = ast.BinOp(left=_as_load(tgt), op=s.op, right=s.value) if isinstance(s, ast.AugAssign) else s.value
+            if isinstance(tgt, ast.Name):
+                self.guards = []
+                v = self.tr(val)
+                if self.guards:
+                    raise Untranslatable('masked read outside a masked store: ' + ast.unparse(s))
+                sub = self.child(**{tgt.id: (lid(tgt.id), v[1], v[2])})
+                return f'let {lid(tgt.id)} := {v[0]};\n  {sub.block(rest, tail)}'
+            if isinstance(tgt, ast.Subscript) and isinstance(tgt.value, ast.Name) and tgt.value.id in self.env:
+                old = self.env[tgt.value.id]
+                m = self.tr(tgt.slice)
+                if m[1] == 'idx' and m[2] == 'P1' and old[2] == 'R' and self.rowvar:
+                    # `a[<list of positions>] = e` read at the entry `rowvar` of a 1-D array
+                    self.guards = []
+                    v = self.tr(val)
+                    if self.guards or v[1] != old[1] or v[2] != 'P0':
+                        raise Untranslatable('indexed store of a value that is not a scalar: ' + ast.unparse(s))
+                    nm = tgt.value.id
+                    sub = self.child(**{nm: (lid(nm), old[1], old[2])})
+                    return f'let {lid(nm)} := if {m[0]}.contains {self.rowvar} then {v[0]} else {old[0]};\n  {sub.block(rest, tail)}'
+                if m[1] != 'bool' or m[2] != old[2] or old[2] not in ('R', 'RC'):
+                    raise Untranslatable('store that is not a masked store into a per-sample array: ' + ast.unparse(s))
+                self.guards = []
+                v = self.tr(val)
+                if any(g != m[0] for g in self.guards):
+                    raise Untranslatable('entries read under a mask other than the mask of the store: ' + ast.unparse(s))
+                self.guards = []
+                if v[1] != old[1] or v[2] not in (old[2], 'P0', 'R'):
+                    raise Untranslatable('masked store of a value of another kind: ' + ast.unparse(s))
+                nm = tgt.value.id
+                sub = self.child(**{nm: (lid(nm), old[1], old[2])})
+                return f'let {lid(nm)} := if {m[0]} then {v[0]} else {old[0]};\n  {sub.block(rest, tail)}'
+        raise Untranslatable('statement ' + ast.unparse(s).splitlines()[0])
+
+    def body_value(self, fn, want=None):
+        """the function body (docstring skipped) ending in `return <expr>` as a Lean term, with the returned value's kind"""
+        stmts = [s for s in fn.body if not (isinstance(s, ast.Expr) and isinstance(s.value, ast.Constant))]
+        if not stmts or not isinstance(stmts[-1], ast.Return) or stmts[-1].value is None:
+            raise Untranslatable(f'{fn.name}: the body does not end with `return <value>`')
+        out = {}
+        def tail(t):
+            t.guards = []
+            v = t.tr(stmts[-1].value)
+            if t.guards:
+                raise Untranslatable(f'{fn.name}: masked read in the returned value')
+            out['kind'] = (v[1], v[2])
+            return v[0]
+        term = self.block(stmts[:-1], tail)
+        if want is not None and out['kind'] != want:
+            raise Untranslatable(f'{fn.name}: returns a value of kind {out["kind"]}, expected {want}')
+        return term, out['kind']
+
+
+class TrZ3(TrZ):
+    """TrZ plus the array idioms of the third wave: label masks (`clusters == c`), row / column selection by a mask,
+    exact quotients of two lengths (rendered as the pair (numerator, denominator)), object attributes rendered as structure
+    projections.  Row-major data is ('list', 'row'), column-major data ('clist', 'col')."""
+
+    def child(self, **bind):
+        sub = TrZ3(self.env, None, self.attrs, self.funcs, self.transparent)
+        sub.syms = self.syms
+        sub.env.update(bind)
+        return sub
+
+    def seq(self, tt):
+        if isinstance(tt[1], tuple) and tt[1][0] == 'clist':
+            return tt[0], tt[1][1]
+        return TrZ.seq(self, tt)
+
+    def cmp(self, op, a, b):
+        if isinstance(op, (ast.Eq, ast.NotEq)) and a[1] == ('list', 'int') and b[1] == 'int':
+            t = f'({a[0]}.map (fun a => a == {b[0]}))' if isinstance(op, ast.Eq) else f'({a[0]}.map (fun a => a != {b[0]}))'
+            return t
+        return TrZ.cmp(self, op, a, b)
+
+    def tr(self, e):
+        if ast.unparse(e).replace(' ', '') in self.syms:
+            return self.syms[ast.unparse(e).replace(' ', '')]
+        if isinstance(e, ast.Compare) and len(e.ops) == 1:
+            a, b = self.tr(e.left), self.tr(e.comparators[0])
+            if a[1] == ('list', 'int') and b[1] == 'int' and isinstance(e.ops[0], (ast.Eq, ast.NotEq)):
+                return self.cmp(e.ops[0], a, b), ('list', 'bool')
+        if isinstance(e, ast.Subscript) and isinstance(e.slice, ast.Tuple) and len(e.slice.elts) == 2:
+            i0, i1 = e.slice.elts
+            full = lambda x: isinstance(x, ast.Slice) and x.lower is None and x.upper is None and x.step is None
+            base = self.tr(e.value)
+            if full(i1) and not full(i0) and isinstance(base[1], tuple) and base[1][0] == 'list':
+                m = self.tr(i0)
+                if m[1] == ('list', 'bool'):
+                    return f'(Py3.rowsWhere {base[0]} {m[0]})', base[1]
+            if full(i0) and not full(i1) and isinstance(base[1], tuple) and base[1][0] == 'clist':
+                m = self.tr(i1)
+                if m[1] == ('list', 'bool'):
+                    return f'(Py3.rowsWhere {base[0]} {m[0]})', base[1]
+            raise Untranslatable('selection ' + ast.unparse(e) + ' (rows of row-major data / columns of column-major data by a label mask expected)')
+        if isinstance(e, ast.Subscript) and not isinstance(e.slice, (ast.Slice, ast.Tuple)):
+            base = self.tr(e.value)
+            if isinstance(base[1], tuple) and base[1][0] == 'list':
+                try:
+                    m = self.tr(e.slice)
+                except Untranslatable:
+                    m = None
+                if m is not None and m[1] == ('list', 'bool'):
+                    return f'(Py3.rowsWhere {base[0]} {m[0]})', base[1]
+                if m is not None and m[1] in ('int', 'item') and base[1][1] not in ('item', 'int'):
+                    return f'({base[0]}.getD ({self.as_int(m)}).toNat default)', base[1][1]
+        if isinstance(e, ast.BinOp) and isinstance(e.op, ast.Div):
+            a, b = self.tr(e.left), self.tr(e.right)
+            if a[1] == 'int' and b[1] == 'int':
+                return f'({a[0]}, {b[0]})', 'ratio'
+            raise Untranslatable('quotient ' + ast.unparse(e))
+        if isinstance(e, ast.Call) and (dotted_name(e.func) or '') == 'len' and len(e.args) == 1:
+            v = self.tr(e.args[0])
+            if isinstance(v[1], tuple) and v[1][0] == 'list':
+                return f'(({v[0]}.length : Nat) : Int)', 'int'
+        if isinstance(e, ast.Call) and (dotted_name(e.func) or '') in ('np.asarray', 'np.array') and len(e.args) == 1 and not e.keywords:
+            return self.tr(e.args[0])
+        return TrZ.tr(self, e)
+
+
+def accumulate_loop(tr, stmts, loop, accs):
+    """`acc = list()` … `for v in xs: <assignments>; acc.append(e)` as `acc := xs.map (fun v => let …; e)`, for each accumulator in
+    `accs`.  `stmts` = the assignments before the loop (bound by `let`).  Returns {acc: (lean term, element type)}."""
+    if not isinstance(loop.target, ast.Name) or loop.orelse:
+        raise Untranslatable('loop target is not a single name')
+    res = {}
+    def build(acc):
+        def at_loop(t):
+            xs, elty = t.seq(t.tr(loop.iter))
+            sub = t.child(**{loop.target.id: (lid(loop.target.id), elty)})
+            lets, out = [], []
+            for st in loop.body:
+                if isinstance(st, ast.Expr) and isinstance(st.value, ast.Call) and isinstance(st.value.func, ast.Attribute) \
+                        and st.value.func.attr == 'append' and isinstance(st.value.func.value, ast.Name) and st.value.func.value.id in accs:
+                    if st.value.func.value.id == acc:
+                        out.append(the(st.value.args, 'argument of append'))
+                elif isinstance(st, ast.Assign):
+                    lets.append(st)
+                else:
+                    raise Untranslatable('loop statement ' + ast.unparse(st).splitlines()[0])
+            body, ty = let_block(sub, lets, the(out, f'{acc}.append in the loop'))
+            res[acc] = ty
+            return f'({xs}.map (fun {lid(loop.target.id)} =>\n    {body}))', ('list', ty)
+        return let_block(tr, stmts, at_loop)
+    return {acc: build(acc) for acc in accs}
 
 
 # ----------------------------------------------------------------------------- fragments
@@ -845,9 +1299,9 @@ def generate(repo, outdir, write_if_changed, snapshot_to=None):
     import fragments
     fragments.emit(o, repo, sys.modules[__name__])
     consts = ('/- GENERATED by tools/py2lean.py from the /repo working tree — do not edit. -/\n'
-              'set_option linter.unusedVariables false\nnamespace Deeprob.Gen\n\n' + PY_PRELUDE + '\n\n' + '\n\n'.join(o.consts) + '\n\nend Deeprob.Gen\n')
+              'set_option linter.unusedVariables false\nnamespace Deeprob.Gen\n\n' + PY_PRELUDE + '\n\n' + PY3_PRELUDE + '\n\n' + '\n\n'.join(o.consts) + '\n\nend Deeprob.Gen\n')
     formulas = ('/- GENERATED by tools/py2lean.py from the /repo working tree — do not edit. -/\n'
-                'import DeeprobModel.Spec.ExpLog\n'
+                'import DeeprobModel.Spec.ExpLog\nimport DeeprobModel.Generated.Consts\n'
                 'set_option linter.unusedVariables false\n'
                 'namespace Deeprob.Gen\nvariable {F : Type} [Field F] [LinearOrder F] (E : ExpLog F)\n\n'
                 + '\n\n'.join(o.formulas) + '\n\nend Deeprob.Gen\n')
@@ -856,7 +1310,7 @@ def generate(repo, outdir, write_if_changed, snapshot_to=None):
     import re
     rat = [re.sub(r'\bF\b', 'Rat', f) for f in o.formulas if 'E.' not in f and ': Prop' not in f]
     formulas_rat = ('/- GENERATED by tools/py2lean.py from the /repo working tree — do not edit.\n'
-                    '   Same terms as Formulas.lean, at the carrier `Rat` (no Mathlib). -/\n'
+                    '   Same terms as Formulas.lean, at the carrier `Rat` (no Mathlib). -/\nimport DeeprobModel.Generated.Consts\n'
                     'set_option linter.unusedVariables false\nnamespace Deeprob.GenRat\n\n' + '\n\n'.join(rat) + '\n\nend Deeprob.GenRat\n')
     os.makedirs(outdir, exist_ok=True)
     write_if_changed(os.path.join(outdir, 'Consts.lean'), consts)
